@@ -445,6 +445,8 @@ def render_specs(case, specs):
             if r2 is not None:
                 m = dict(base)
                 m.update(r2)
+                if "pair_qual" in sp:
+                    m["qual"] = sp["pair_qual"]        # base quality of the second mate
                 base["flag"] = 1 | 2 | 32 | 64
                 m["flag"] = 1 | 2 | 16 | 128
                 base["mate"] = {"chrom": chrom, "pos": m["pos"]}
